@@ -56,10 +56,20 @@ type Contract struct {
 	Results   []QVar
 	RecvName  string
 	Delegate  *TypeExpr // interface method contract = contract of this concrete type's method
+	Callbacks  map[string]*CallbackSpec // function-typed parameter -> what the function promises about its calls of it
+	Invariants []*Clause                // closure invariants: hold before and after every call (assumed at entry, proved at return)
 	Partial   bool     // only the explicit clauses (post/inv/dec) are claimed: implicit obligations (no-panic, callee preconditions, frame) are assumed, i.e. the clauses hold for runs that return normally
 	Prune     bool     // check branch feasibility during symbolic execution and skip infeasible branches
 	Reveal    []string // opaque spec predicates whose definition this function's proof may use
 	AllowPanic []string // explicit panic kinds that are part of the specified behaviour
+}
+
+// CallbackSpec: the higher-order function calls parameter f any number of times; every call passes
+// arguments satisfying Guarantees; the callback must leave the Preserves maps alone.
+type CallbackSpec struct {
+	ArgNames   []string
+	Guarantees []*Clause
+	Preserves  []ModItem
 }
 
 type SpecFunc struct {
@@ -94,6 +104,7 @@ var clauseKeywords = map[string]bool{
 	"requires": true, "ensures": true, "ensures_assumed": true, "modifies": true, "loop": true, "decreases": true,
 	"props": true, "pure": true, "trusted": true, "func": true, "spec": true, "ghost": true,
 	"lemma": true, "axiom": true, "assume": true, "package": true, "nopanic": true, "iface": true,
+	"callback": true, "invariant": true,
 	"allowpanic": true, "delegates": true, "reveal": true, "owned": true, "prune": true, "partial": true,
 }
 
@@ -301,6 +312,48 @@ func (p *Program) parseClause(c *Contract, word, rest, src string) error {
 		c.Prune = true
 	case "partial":
 		c.Partial = true
+	case "invariant":
+		cl, err := mk(rest)
+		if err != nil {
+			return err
+		}
+		if cl.Label == "" {
+			cl.Label = strconv.Itoa(len(c.Invariants) + 1)
+		}
+		c.Invariants = append(c.Invariants, cl)
+	case "callback":
+		// callback f(kv) guarantees E   |   callback f preserves items
+		m := regexp.MustCompile(`^(\w+)\s*(?:\(([^)]*)\))?\s*(guarantees|preserves)\s+(.*)$`).FindStringSubmatch(rest)
+		if m == nil {
+			return fmt.Errorf("bad callback clause %q", rest)
+		}
+		if c.Callbacks == nil {
+			c.Callbacks = map[string]*CallbackSpec{}
+		}
+		cb := c.Callbacks[m[1]]
+		if cb == nil {
+			cb = &CallbackSpec{}
+			c.Callbacks[m[1]] = cb
+		}
+		if strings.TrimSpace(m[2]) != "" {
+			cb.ArgNames = nil
+			for _, a := range strings.Split(m[2], ",") {
+				cb.ArgNames = append(cb.ArgNames, strings.TrimSpace(a))
+			}
+		}
+		if m[3] == "guarantees" {
+			cl, err := mk(m[4])
+			if err != nil {
+				return err
+			}
+			cb.Guarantees = append(cb.Guarantees, cl)
+		} else {
+			items, err := parseModifies(m[4])
+			if err != nil {
+				return err
+			}
+			cb.Preserves = append(cb.Preserves, items...)
+		}
 	case "reveal":
 		for _, f := range strings.Fields(strings.ReplaceAll(rest, ",", " ")) {
 			c.Reveal = append(c.Reveal, f)
@@ -402,6 +455,15 @@ func (p *Program) parseClause(c *Contract, word, rest, src string) error {
 }
 
 func parseModifies(rest string) ([]ModItem, error) {
+	// expand @name macros (spec modset name = items)
+	for i := 0; i < 5 && strings.Contains(rest, "@"); i++ {
+		rest = regexp.MustCompile(`@(\w+)`).ReplaceAllStringFunc(rest, func(m string) string {
+			if body, ok := modsetMacros[m[1:]]; ok {
+				return body
+			}
+			return m
+		})
+	}
 	var items []ModItem
 	for _, part := range splitTop(rest, ',') {
 		part = strings.TrimSpace(part)
@@ -449,6 +511,9 @@ func parseModifies(rest string) ([]ModItem, error) {
 						}
 					}
 					return nil, fmt.Errorf("all() needs Type.field: %q", part)
+				case "cachemaps":
+					items = append(items, ModItem{Kind: "allmap"})
+					continue
 				case "allelems":
 					if t, ok := x.Args[0].(*ETypeLit); ok {
 						items = append(items, ModItem{Kind: "allelems", Name: t.T.String()})
@@ -500,12 +565,18 @@ func splitTop(s string, sep byte) []string {
 }
 
 var specAbstractHdr = regexp.MustCompile(`^abstract\s+(\w+)\s*\(([^)]*)\)\s*(.*)$`)
+var specModsetHdr = regexp.MustCompile(`^modset\s+(\w+)\s*=\s*(.+)$`)
+var modsetMacros = map[string]string{}
 var specFuncHdr = regexp.MustCompile(`^(func|pred|opaque)\s+(\w+)\s*\(([^)]*)\)\s*([^{]*)\{(.*)\}\s*$`)
 var specConstHdr = regexp.MustCompile(`^const\s+(\w+)\s*=\s*(.+)$`)
 
 func (p *Program) parseSpecDecl(pkg, rest, src string) error {
 	if m := specConstHdr.FindStringSubmatch(rest); m != nil {
 		p.specCst[pkg+"."+m[1]] = strings.TrimSpace(m[2])
+		return nil
+	}
+	if m := specModsetHdr.FindStringSubmatch(rest); m != nil {
+		modsetMacros[m[1]] = m[2]
 		return nil
 	}
 	if m := specAbstractHdr.FindStringSubmatch(rest); m != nil {
